@@ -284,12 +284,22 @@ TrRStorm ==
                   IN /\ ok' = [ok EXCEPT !.c08out = @ /\ b1, !.c08obs = @ /\ b2, !.c09obs = @ /\ b3]
                      /\ dead' = ~(b1 /\ b2 /\ b3)
 
-Known == {"reset", "call", "par", "tcall", "tret", "canary", "sync", "rstorm"}
+\* stall: some thread stayed inside ONE World operation for `secs` seconds (the harness's watchdog;
+\* far beyond any scheduling delay).  Every action of World.tla ends with an outcome - a guard,
+\* None or a panic - and takes a few atomic instructions in the real code: an operation that
+\* neither returns nor panics is explained by no behaviour ("any fetch that would break this
+\* PANICS").  The event stands in a block of its own (the stuck thread cannot be joined).
+TrStall ==
+  /\ Is("stall")
+  /\ UNCHANGED <<store, borrow, guards, dropped, returned, nextIdent, call, outcome, iters, par, confs>>
+  /\ IF dead THEN UNCHANGED <<dead, ok>> ELSE ok' = [ok EXCEPT !.c08lin = FALSE] /\ dead' = TRUE
+
+Known == {"reset", "call", "par", "tcall", "tret", "canary", "sync", "rstorm", "stall"}
 TrSkip ==
   /\ l <= Len(Rec) /\ Ev.ev \notin Known /\ l' = l + 1
   /\ UNCHANGED <<store, borrow, guards, dropped, returned, nextIdent, call, outcome, iters, dead, ok, par, confs>>
 
-TNext == TrReset \/ TrCall \/ TrPar \/ TrTCall \/ TrTRet \/ TrCanary \/ TrSync \/ TrRStorm \/ TrSkip
+TNext == TrReset \/ TrCall \/ TrPar \/ TrTCall \/ TrTRet \/ TrCanary \/ TrSync \/ TrRStorm \/ TrStall \/ TrSkip
 Spec == TInit /\ [][TNext]_vars
 
 \* ---- per-property invariants ------------------------------------------------------
